@@ -71,8 +71,17 @@ def case_sliced(case, res):
     scn = fullrun.scenarios()[case['scenario']]
 
     def judge(run):
-        return [(k + ':' + case['scenario'] + ':subscribed-mid-job', d)
-                for k, d in fullrun.judge_c07(run, res)]
+        out = [(k + ':' + case['scenario'] + ':subscribed-mid-job', d)
+               for k, d in fullrun.judge_c07(run, res)]
+        for cname, c in run.s.x_clients.items():
+            for m in c.messages:
+                if isinstance(m.get('error'), dict) and m['error'].get('code') == -32603:
+                    sent = {x['id']: x for x in c.x_sent}.get(m.get('id'), {})
+                    out.append(('subscription-mid-job-ended-in-internal-error:' + case['scenario'],
+                                dict(client=cname, method=sent.get('method'),
+                                     params=str(sent.get('params'))[:80])))
+                    return out
+        return out
 
     found = slicedsys.enumerate_points(
         lambda: fullrun.make(scn, immediate=True), lambda s: scn['script'](),
